@@ -343,6 +343,8 @@ func generate(a *hx.Args, mode string) ([]label, int) {
 				m.kind, m.rows = "delete", 1+r.Intn(3)
 				if r.Intn(4) == 0 {
 					m.pname = "" // a delete without partition name keeps its partition id
+				} else if (mode == "c02" || mode == "c06") && r.Intn(12) == 0 {
+					m.part, m.pname = s.c.id*100+9, "p9" // a partition the downstream never learns: the pack is an error
 				} else if !known() {
 					m.part, m.pname = s.c.id*100, "_default"
 				}
@@ -395,6 +397,15 @@ func generate(a *hx.Args, mode string) ([]label, int) {
 	if r.Intn(6) == 0 && len(g.colls) > 0 {
 		g.labels = append(g.labels, label{kind: "stop", c: g.colls[r.Intn(len(g.colls))]})
 	}
+	if mode == "c13d" {
+		// every plain start is notified twice at the same time
+		for i := range g.labels {
+			l := &g.labels[i]
+			if l.kind == "start" && len(l.c.waitv) == 0 && l.ngen == 0 && len(l.wakes) == 0 {
+				l.twice = true
+			}
+		}
+	}
 	return g.labels, 1
 }
 
@@ -408,6 +419,20 @@ func copyMap(m map[string]int64) map[string]int64 {
 
 // corpus: hand-written scripts run first on every run
 func corpus(out *cq.Out) {
+	if *mode == "c13d" {
+		// the same collection is notified twice at the same time (listed and watched, or two workers of the watch pool): one start
+		ca := &coll{id: 1, tid: 9001, name: "c1", src: [][2]string{{"src-dml_0_1v0", "src-dml_0"}, {"src-dml_1_1v1", "src-dml_1"}},
+			tgt: [][2]string{{"tgt-dml_0_9001v0", "tgt-dml_0"}, {"tgt-dml_1_9001v1", "tgt-dml_1"}}, parts: map[string]int64{"_default": 900100}}
+		i1 := func(id uint64, ts uint64) smsg {
+			return smsg{kind: "insert", id: id, coll: 1, part: 100, pname: "_default", ts: ts, rows: 2}
+		}
+		f := func(sh int, b, e uint64, ms ...smsg) label {
+			return label{kind: "feed", c: ca, spch: ca.src[sh][1], svch: ca.src[sh][0], begin: b, end: e, nstart: 1, msgs: ms}
+		}
+		runCase(out, 1, []label{{kind: "start", c: ca, twice: true}, f(0, 100, 104, i1(1, 102)), f(1, 300, 303, i1(2, 302)), f(0, 104, 106)},
+			"corpus: a collection notified twice at the same time is started once")
+		return
+	}
 	c1 := &coll{id: 1, tid: 9001, name: "c1", src: [][2]string{{"src-dml_0_1v0", "src-dml_0"}}, tgt: [][2]string{{"tgt-dml_0_9001v0", "tgt-dml_0"}},
 		parts: map[string]int64{"_default": 900100, "p1": 900101}}
 	ins := func(id uint64, ts uint64) smsg {
@@ -521,7 +546,11 @@ func corpus(out *cq.Out) {
 	bad := smsg{kind: "insert", id: 2, coll: 1, part: 109, pname: "p9", ts: 106, rows: 1}
 	runCase(out, 1, []label{{kind: "start", c: e}, feed(e, 0, 100, 104, ins(1, 102)), feed(e, 0, 104, 107, bad), feed(e, 0, 107, 109, ins(3, 108))},
 		"corpus: unknown partition, retries exhausted (the stream goroutine used to dereference a nil pack)")
-	// imports: one that names as many partitions as the downstream has, one that does not (refresh fails: an error, no pack)
+	// the same for a delete that names a partition the downstream never learns: an error, nothing is emitted for the pack
+	badDel := smsg{kind: "delete", id: 2, coll: 1, part: 109, pname: "p9", ts: 106, rows: 2}
+	runCase(out, 1, []label{{kind: "start", c: e}, feed(e, 0, 100, 104, ins(1, 102)), feed(e, 0, 104, 107, badDel), feed(e, 0, 107, 109, ins(3, 108))},
+		"corpus: delete of an unknown partition, retries exhausted")
+		// imports: one that names as many partitions as the downstream has, one that does not (refresh fails: an error, no pack)
 	imp := func(id uint64, ts uint64, n int) smsg { return smsg{kind: "import", id: id, coll: 1, ts: ts, rows: n} }
 	runCase(out, 1, []label{{kind: "start", c: e}, feed(e, 0, 100, 104, imp(1, 102, 1)), feed(e, 0, 104, 107, imp(2, 106, 3)), feed(e, 0, 107, 109, ins(3, 108))},
 		"corpus: import with matching and with unresolvable partition count")
